@@ -84,13 +84,27 @@ class _HostValue(int):
 
 def run_differential(prog, script, fail: Callable[[str, Optional[str]], None], count: Callable[[str, int], None],
                      pipe_kw=None, compare_trace=True, on_segment=None, on_top=None, step_bound=4000,
-                     check_host_handles=True, templates=None, segment_modes=None, after_close=None, on_nested=None):
+                     check_host_handles=True, templates=None, segment_modes=None, after_close=None, on_nested=None, neighbours=False):
     """Returns dict with 'nontrivial' info. `fail(what, key)` reports a violation."""
     ref, snaps = reference_run(prog, script, step_bound, templates)
     pipe = Pipe(script=script, max_qubits=5, **(pipe_kw or {}))
     drv = SdkDriver(pipe.conn)
     drv.on_top = on_top
     drv.on_nested = on_nested
+    nbs = []
+    if neighbours:
+        # other applications of the same host process come and go on the controller while this one builds its subroutines
+        # (they queue nothing: opening / closing a connection is all they do)
+        n_top = [0]
+
+        def neighbour(_st):
+            n_top[0] += 1
+            if n_top[0] % 3 == 2:
+                nbs.append(pipe.open(max_qubits=1))
+                count("neighbour_applications_opened", 1)
+                if len(nbs) > 2:
+                    nbs.pop(0).close()
+        drv.before_top = neighbour
     per_segment = isinstance(templates, list)
     drv.tmpl_values = dict(templates or {}) if not per_segment else {}
     ex = pipe.ex
@@ -256,6 +270,7 @@ def run_differential(prog, script, fail: Callable[[str, Optional[str]], None], c
                 p0 = len(ex.ret_log)
                 segs_covered = range(last_compared + 1, si + 1)     # (a late commit is judged together with the next segment)
                 last_compared = si
+                pubs = [p_ for p_ in pubs if p_[0] == app]
                 got_regs = sorted(r for (_a, kind, r, _v) in pubs if kind == "reg")
                 want_regs = sorted(r for j in segs_covered for r in drv.seg_regs.get(j, set()))   # each segment returns its own
                 if got_regs != want_regs and not (set(drv.regs) & nested_regs):
@@ -302,6 +317,8 @@ def run_differential(prog, script, fail: Callable[[str, Optional[str]], None], c
                 count("host_handles_read", len(drv.arrays) + len(drv.entry_handles) + len(drv.futs) + len(frozen_regs))
                 if on_segment is not None:
                     on_segment(si, pipe, drv)
+            while nbs:
+                nbs.pop().close()
             conn.close()   # only on the success path: a failed flush leaves pending bookkeeping behind
             if after_close is not None:
                 after_close(pipe, drv, ref, snaps[-1])
